@@ -8,6 +8,8 @@ package main
 import (
 	"fmt"
 
+	"github.com/scottyw/tetromino/gameboy/controller"
+
 	"verif/internal/rig"
 )
 
@@ -33,7 +35,19 @@ func polling(c *rig.Ctx) {
 		emit(0x3e, page, 0xe0, 0x46)
 		start := pc
 		cyc := 0
+		// in one run out of four the guest executes STOP early in the transfer (a key press
+		// ends it much later): the transfer completes in its 162 cycles all the same
+		stopAt := -1
+		if i%4 == 3 {
+			stopAt = r.Intn(120)
+		}
 		for cyc < 158 {
+			if stopAt >= 0 && cyc >= stopAt {
+				emit(0x10, 0x00)
+				stopAt = -1
+				cyc += 2
+				continue
+			}
 			switch r.Intn(6) {
 			case 0:
 				emit(0x1a) // LD A,(DE)
@@ -69,9 +83,26 @@ func polling(c *rig.Ctx) {
 			}
 		}
 		mode2 := 0
+		stoppedFor := 0
 		for k := 0; k < 4000; k++ {
 			if int(m.CPU.XGetRegs().PC) == end && m.CPU.XAtBoundary() {
 				break
+			}
+			if m.CPU.XStopped() {
+				stoppedFor++
+				if stoppedFor == 200 {
+					// the transfer must be over although the CPU has been stopped all along
+					snap := m.OAM.XSnapshot()
+					for q := 0; q < 160; q++ {
+						if snap[q] != src[q] {
+							c.Violate("polling-dma-frozen-by-stop", fmt.Sprintf("transfer from page %02X, the guest executed STOP during it: 200 cycles later OAM[%02X] holds %02X, the source byte was %02X", page, q, snap[q], src[q]), nil)
+							return
+						}
+					}
+					c.Count("polling_transfers_across_stop", 1)
+					m.Ctl.ButtonAction(controller.A, true)
+					m.CPU.OnInput()
+				}
 			}
 			pcNow := int(m.CPU.XGetRegs().PC)
 			if pcNow > start && pcNow < end && m.Mem.Read(0xff41)&3 == 2 {
